@@ -529,6 +529,12 @@ class Leb128Field(VarField):
         self._sz = None
         self.instance = None
 
+    def copy(self, obj=None):
+        # typename is always 'c': keep the sign and size of the defining type
+        newf = super().copy(obj)
+        newf.sign, newf.N = self.sign, self.N
+        return newf
+
     def format(self):
         if self._sz is None:
             return "#c"
